@@ -16,3 +16,22 @@ Print Assumptions C01_date_roundtrip_partial.
 Example C01_date_example :
   valid_date 2024 2 29 /\ as_date (date_show (2024, 2, 29)) = Ok (2024, 2, 29).
 Proof. exact date_roundtrip_example. Qed.
+
+(* KEYWORDS and the taxonomy are written as strings.Join(parts, "; ") + "."
+   wrapped at blanks by wrap.Space, and read back by joining the lines with a
+   blank and FlatFileSplit.  Both steps are inverse to each other: wrapping only
+   turns blanks into line breaks, and splitting the joined text returns the
+   parts, provided no part contains "; " (nosep) and the list is not [""] *)
+Theorem C01_wrap_only_breaks_at_blanks_partial : forall s n, no_nl s -> unwrap (wrap_space s n) = s.
+Proof. exact wrap_space_unwrap. Qed.
+Print Assumptions C01_wrap_only_breaks_at_blanks_partial.
+
+Theorem C01_keywords_split_join_partial : forall ks, Forall nosep ks -> join_semi ks <> [] ->
+  flatfile_split (join_semi ks ++ [46]) = ks.
+Proof. exact flatfile_split_join. Qed.
+Print Assumptions C01_keywords_split_join_partial.
+
+Example C01_keywords_example :
+  let ks := [[82;101;102;83;101;113]; [97;59;98]; [99;32;100]] in
+  Forall nosep ks /\ flatfile_split (join_semi ks ++ [46]) = ks.
+Proof. split; [repeat constructor; intros [H [t Ht]]; discriminate|reflexivity]. Qed.
